@@ -14,6 +14,26 @@ import (
 type libFn func(x *Exec, fr *Frame, st *State, fn *ssa.Function, args []Val, in ssa.Instruction, rt types.Type) Val
 
 var libTable = map[string]libFn{}
+
+// noopLib: library functions that neither read nor write any state the contracts talk about
+// (timers, error wrapping, time arithmetic). Results are unconstrained.
+var noopLib = map[string]bool{
+	"(*time.Timer).Stop": true, "(*time.Timer).Reset": true, "time.NewTimer": true, "time.Until": true,
+	"(time.Time).IsZero": true, "(time.Time).Add": true, "(time.Time).After": true, "(time.Time).Before": true,
+	"(time.Time).Sub": true, "(time.Time).UnixMilli": true, "(time.Time).UnixNano": true, "time.Now": true, "time.Since": true,
+	"github.com/pkg/errors.WithStack": true, "github.com/pkg/errors.New": true, "errors.New": true,
+	"github.com/pkg/errors.Wrap": true, "fmt.Sprintf": true, "fmt.Errorf": true,
+	"(*golang.org/x/time/rate.Limiter).WaitN": true, "golang.org/x/time/rate.NewLimiter": true,
+	"context.Background": true, "(time.Duration).Milliseconds": true,
+}
+
+func libNoop(x *Exec, fr *Frame, st *State, fn *ssa.Function, args []Val, in ssa.Instruction, rt types.Type) Val {
+	x.note("library call without effect on modelled state (result unconstrained): " + fullName(fn))
+	if rt == nil {
+		return nil
+	}
+	return x.freshResult(st, rt)
+}
 var invokeTable = map[string]libFn{}
 
 func init() {
@@ -34,6 +54,9 @@ func init() {
 	libTable["(*sync.RWMutex).RLock"] = libLock
 	libTable["(*sync.RWMutex).RUnlock"] = libUnlock
 	libTable["(*sync.Once).Do"] = libOnceDo
+	for n := range noopLib {
+		libTable[n] = libNoop
+	}
 }
 
 // ---- atomics: sequentially consistent access to the addressed word ----
@@ -86,7 +109,7 @@ func (x *Exec) lockKey(p *PtrVal) (string, *Term) {
 }
 
 func libLock(x *Exec, fr *Frame, st *State, fn *ssa.Function, args []Val, in ssa.Instruction, rt types.Type) Val {
-	p := x.asPtr(args[0], fn.Signature.Params().At(0).Type())
+	p := x.asPtr(args[0], fn.Signature.Recv().Type())
 	x.nilCheck(st, p, in.Pos(), x.src(in))
 	k, ref := x.lockKey(p)
 	if k == "" {
@@ -102,7 +125,7 @@ func libLock(x *Exec, fr *Frame, st *State, fn *ssa.Function, args []Val, in ssa
 }
 
 func libUnlock(x *Exec, fr *Frame, st *State, fn *ssa.Function, args []Val, in ssa.Instruction, rt types.Type) Val {
-	p := x.asPtr(args[0], fn.Signature.Params().At(0).Type())
+	p := x.asPtr(args[0], fn.Signature.Recv().Type())
 	x.nilCheck(st, p, in.Pos(), x.src(in))
 	k, ref := x.lockKey(p)
 	if k == "" {
@@ -156,7 +179,8 @@ func (x *Exec) execBuiltin(fr *Frame, st *State, name string, cc *ssa.CallCommon
 			return mkInt(u.Elem().Underlying().(*types.Array).Len())
 		case *types.Map:
 			m := x.toTerm(args[0], t)
-			v := mkSelect(st.H("ML:"+te.typeStr(u), arraySort(sortInt, sortInt)), m)
+			ln, ls := te.mapLenHeap(u, x.regionOf(cc.Args[0]))
+			v := mkSelect(st.H(ln, ls), m)
 			x.assume(st, mkLe(mkInt(0), v))
 			return v
 		case *types.Chan:
@@ -206,11 +230,12 @@ func (x *Exec) execBuiltin(fr *Frame, st *State, name string, cc *ssa.CallCommon
 			x.fillZero(st, u.Elem(), s, pos)
 		case *types.Map:
 			m := x.toTerm(args[0], argT(0))
-			dn, ds, _, _ := te.mapHeaps(u)
+			reg := x.regionOf(cc.Args[0])
+			dn, ds, _, _ := te.mapHeaps(u, reg)
 			x.checkWrite(st, dn, m, pos)
 			st.setH(dn, mkStore(st.H(dn, ds), m, mkConstArr(ds.Elem, tFalse)))
-			ln := "ML:" + te.typeStr(u)
-			st.setH(ln, mkStore(st.H(ln, arraySort(sortInt, sortInt)), m, mkInt(0)))
+			ln, ls := te.mapLenHeap(u, reg)
+			st.setH(ln, mkStore(st.H(ln, ls), m, mkInt(0)))
 		}
 		return nil
 	case "append":
@@ -220,7 +245,7 @@ func (x *Exec) execBuiltin(fr *Frame, st *State, name string, cc *ssa.CallCommon
 		m := x.toTerm(args[0], argT(0))
 		k := x.toTerm(args[1], mt.Key())
 		x.under(st, mkNot(mkEq(m, mkInt(0))), func(sub *State) {
-			x.mapStore(sub, mt, m, k, nil, false, pos)
+			x.mapStore(sub, mt, x.regionOf(cc.Args[0]), m, k, nil, false, pos)
 		})
 		return nil
 	case "close":
